@@ -5,6 +5,7 @@ import (
 	"flag"
 	"fmt"
 	"go/token"
+	"go/types"
 	"os"
 	"path/filepath"
 	"sort"
@@ -132,6 +133,8 @@ type FuncReport struct {
 	Obligations int      `json:"obligations"`
 	Assumptions []string `json:"assumptions,omitempty"`
 	TrustedUsed []string `json:"trusted_models,omitempty"`
+	Locals      []string `json:"locals,omitempty"`  // source variables of the function in declaration order
+	Renamed     []string `json:"renamed,omitempty"` // identifiers of the contract resolved through the accepted list of locals
 }
 
 type RunReport struct {
@@ -165,6 +168,7 @@ func main() {
 	timeout := flag.Int("timeout", 0, "per-obligation timeout in seconds")
 	showLoops := flag.String("loops", "", "print loop ordinals of functions whose name contains this, then exit")
 	cacheDir := flag.String("cache", "", "directory caching unsat answers by query text hash")
+	localsFile := flag.String("locals", "", "JSON file: function -> source variables in declaration order on the accepted tree (renamed locals are resolved by position)")
 	flag.Parse()
 	t0 := time.Now()
 	if *cacheDir != "" {
@@ -177,6 +181,11 @@ func main() {
 	}
 	_ = os.MkdirAll(*out, 0o755)
 	eng, err := loadEngine(*repo)
+	if err == nil && *localsFile != "" {
+		if b, e2 := os.ReadFile(*localsFile); e2 == nil {
+			_ = json.Unmarshal(b, &eng.acceptedLocals)
+		}
+	}
 	if err != nil {
 		fmt.Fprintln(os.Stderr, "gvc: load error:", err)
 		os.Exit(2)
@@ -250,7 +259,11 @@ func main() {
 			continue
 		}
 		fc := eng.VerifyFunction(c.Fn, c)
-		fr := FuncReport{Func: fc.fnName(), Props: c.Props, Trusted: c.Trusted, Unsupported: fc.errors}
+		fr := FuncReport{Func: fc.fnName(), Props: c.Props, Trusted: c.Trusted, Unsupported: fc.errors, Locals: sourceLocals(c.Fn)}
+		for a, b := range fc.usedAlias {
+			fr.Renamed = append(fr.Renamed, a+" -> "+b)
+		}
+		sort.Strings(fr.Renamed)
 		for a := range fc.assumptions {
 			fr.Assumptions = append(fr.Assumptions, a)
 		}
@@ -421,4 +434,38 @@ func clauseHasProp(c *Contract, prop string) bool {
 		}
 	}
 	return false
+}
+
+// sourceLocals lists the source-level variables of a function (parameters, results, locals that the SSA form still
+// refers to) in the order of their declarations.
+func sourceLocals(fn *ssa.Function) []string {
+	type lv struct {
+		pos  token.Pos
+		name string
+	}
+	seen := map[types.Object]bool{}
+	var vs []lv
+	for _, b := range fn.Blocks {
+		for _, ins := range b.Instrs {
+			d, ok := ins.(*ssa.DebugRef)
+			if !ok {
+				continue
+			}
+			obj := d.Object()
+			if obj == nil || seen[obj] {
+				continue
+			}
+			if v, isVar := obj.(*types.Var); !isVar || v.IsField() {
+				continue
+			}
+			seen[obj] = true
+			vs = append(vs, lv{obj.Pos(), obj.Name()})
+		}
+	}
+	sort.Slice(vs, func(i, j int) bool { return vs[i].pos < vs[j].pos })
+	var out []string
+	for _, v := range vs {
+		out = append(out, v.name)
+	}
+	return out
 }
